@@ -235,3 +235,46 @@ Example C03_cond_domain_early_registration_dropped : (
   cdm_has_link (table_cond tbl) (cdm_run (cdm_empty 10) [KAdd 1 2 3; KFn 1 2 3 1]) 1 2 3 = false /\
   crm_has_link (table_cond tbl) (crm_run (crm_empty 10) [CFn 1 2 3 1; CLink (OAdd 1 2)]) 1 2 [3] = false)%N.
 Proof. vm_compute. repeat split; reflexivity. Qed.
+
+(* ---------------------------------------------------------------------------------------------------------------
+   Of the SOURCE: RoleManager._has_link (the recursive breadth-first search with its level countdown) and
+   RoleManager.has_link (casbin/rbac/default_role_manager/role_manager.py) are re-translated on every run into programs
+   of the language of RoleLang.v (coq/gen/HasLinkGen.v); RoleTie.v proves that the interpreter run on them computes
+   has_link_lvl / rm_has_link - the functions C03_has_link_reach and its corollaries above are about - for EVERY role
+   graph (`succ`: the direct roles of each name; cycles, self-loops and diamonds included), every frontier, every level
+   and EVERY order in which Python may hand out the elements of a set (`shuffle`: only "same elements" is assumed), with
+   a recursion budget above the level (the search never needs more). *)
+From Coq Require Import ZArith.
+From PyCasbin Require RoleLang RoleTie.
+From PyCasbinGen Require HasLinkGen.
+
+Theorem C03_source_has_link_rec : forall succ shuffle, (forall l a, In a (shuffle l) <-> In a l) ->
+  forall lvl depth t front, lvl < depth ->
+  RoleTie.run_rec succ shuffle depth t front (BinInt.Z.of_nat lvl) = Ok (RoleLang.RB (has_link_lvl succ lvl t front)).
+Proof. exact RoleTie.tie_has_link_rec. Qed.
+Print Assumptions C03_source_has_link_rec.
+
+Theorem C03_source_has_link : forall shuffle, (forall l a, In a (shuffle l) <-> In a l) -> forall s a b,
+  RoleTie.run_has_link (rm_succ s) shuffle (BinInt.Z.of_nat (rm_max s)) (S (rm_max s)) a b
+  = Ok (RoleLang.RB (rm_has_link s a b)).
+Proof. exact RoleTie.tie_rm_has_link. Qed.
+Print Assumptions C03_source_has_link.
+
+(* hence, of the regenerated source: has_link answers True exactly for paths of fewer than max_hierarchy_level edges *)
+Theorem C03_source_has_link_reach : forall shuffle, (forall l a, In a (shuffle l) <-> In a l) -> forall s a b,
+  RoleTie.run_has_link (rm_succ s) shuffle (BinInt.Z.of_nat (rm_max s)) (S (rm_max s)) a b = Ok (RoleLang.RB true)
+  <-> exists k, k < rm_max s /\ path (rm_edge s) k a b.
+Proof.
+  intros shuffle H s a b. rewrite (RoleTie.tie_rm_has_link shuffle H s a b). rewrite <- has_link_reach.
+  split; [intro E; inversion E; reflexivity | intros ->; reflexivity].
+Qed.
+Print Assumptions C03_source_has_link_reach.
+
+(* the regenerated search on the cycle 1 -> 2 -> 3 -> 1 with the set order reversed: 3 is found from 1 within level 3,
+   not within level 2; an unreachable name is not found and the search stops *)
+Example C03_source_example :
+  let succ := fun n => if N.eqb n 1 then [2%N] else if N.eqb n 2 then [3%N] else if N.eqb n 3 then [1%N] else [] in
+  RoleTie.run_has_link succ (@rev name) 3%Z 4 1%N 3%N = Ok (RoleLang.RB true)
+  /\ RoleTie.run_has_link succ (@rev name) 2%Z 3 1%N 3%N = Ok (RoleLang.RB false)
+  /\ RoleTie.run_has_link succ (@rev name) 10%Z 11 1%N 7%N = Ok (RoleLang.RB false).
+Proof. vm_compute. repeat split; reflexivity. Qed.
